@@ -847,8 +847,8 @@ fn write_evidence(
         "workers": workers,
         "components": {
             "real": ["sodg (all modules, built from /repo's working tree with --features verif, opt-level 2, debug assertions and overflow checks on)", "emap 0.0.13", "micromap 0.0.19", "microstack 0.0.7", "bincode 1.3.3", "serde"],
-            "stub": ["std::fs as seen by serialization.rs -> SimDisk (in-memory, fault plan per call)", "BuildHasher of HashMap/HashSet inside sodg -> seeded SimState"],
-            "uncontrolled": ["emap's private std HashMap inside Deserialize (insertion order only)", "Instant::now() in save/load trace! arguments", "log macros (no logger installed)"],
+            "stub": ["std::fs read/write/File/rename/remove_file as seen by serialization.rs -> SimDisk (in-memory, fault plan per call; its content is mirrored into a private directory on a RAM disk so that unshadowed std::fs items see the same files, and what bypasses the seam is folded back)", "BuildHasher of HashMap/HashSet inside sodg -> seeded SimState"],
+            "uncontrolled": ["emap's private std HashMap inside Deserialize (insertion order only)", "Instant::now() in save/load trace! arguments", "log macros (a null logger; the level is a configuration axis of C19)", "mtime/inode numbers of the mirror directory"],
         },
     });
     let ev = serde_json::json!({
